@@ -17,42 +17,42 @@ Open Scope N_scope.
    number) pairs of the chunks ReadDataPoints returned, in order - none missing, none twice, none
    invented, none for a refused chunk; likewise the alias announcements.  A failed send keeps its
    content in the buffers. *)
-Theorem c04_ack_exactly_once : forall cap pre evs,
+Theorem c04_ack_exactly_once : forall fl cap pre evs,
   small_history pre evs ->
-  let r := drun (dinit current cap pre) evs in
+  let r := drun (dinit current fl cap pre) evs in
   ack_results (sent_acks_of (snd r)) ++ b_res (d_bufs (fst r)) = read_results (snd r) /\
   ack_ups (sent_acks_of (snd r)) ++ b_up (d_bufs (fst r)) = minted_ups (snd r) /\
   ack_ids (sent_acks_of (snd r)) ++ b_id (d_bufs (fst r)) = minted_ids (snd r).
-Proof. intros cap pre evs H. exact (ack_exactly_once current cap pre evs H eq_refl). Qed.
+Proof. intros fl cap pre evs H. exact (ack_exactly_once current fl cap pre evs H eq_refl). Qed.
 Print Assumptions c04_ack_exactly_once.
 
 (* ... and once a flush succeeds (for instance the first one after the stream resumed) nothing is
    pending: every chunk returned so far is acknowledged, every alias issued so far announced,
    whatever sends failed before. *)
-Theorem c04_acked_after_successful_flush : forall cap pre evs,
+Theorem c04_acked_after_successful_flush : forall fl cap pre evs,
   small_history pre (evs ++ [AckTick true]) -> has_close evs = false ->
-  let r := drun (dinit current cap pre) (evs ++ [AckTick true]) in
+  let r := drun (dinit current fl cap pre) (evs ++ [AckTick true]) in
   ack_results (sent_acks_of (snd r)) = read_results (snd r) /\
   ack_ups (sent_acks_of (snd r)) = minted_ups (snd r) /\
   ack_ids (sent_acks_of (snd r)) = minted_ids (snd r).
-Proof. intros cap pre evs H. exact (acked_after_flush current cap pre evs H eq_refl). Qed.
+Proof. intros fl cap pre evs H. exact (acked_after_flush current fl cap pre evs H eq_refl). Qed.
 Print Assumptions c04_acked_after_successful_flush.
 
 (* Every chunk returned is returned before Close: after Close ReadDataPoints / ReadMetadata return
    nothing (so nothing can stay unacknowledged behind the final flush). *)
-Theorem c04_nothing_returned_after_close : forall cap pre evs post,
-  let s1 := fst (drun (dinit current cap pre) (evs ++ [Close])) in
+Theorem c04_nothing_returned_after_close : forall fl cap pre evs post,
+  let s1 := fst (drun (dinit current fl cap pre) (evs ++ [Close])) in
   read_results (snd (drun s1 post)) = [] /\ consumed_of (snd (drun s1 post)) = [] /\
   returned_metas (metas_of (snd (drun s1 post))) = [].
-Proof. intros cap pre evs post. exact (no_read_after_close current cap pre evs post eq_refl). Qed.
+Proof. intros fl cap pre evs post. exact (no_read_after_close current fl cap pre evs post eq_refl). Qed.
 Print Assumptions c04_nothing_returned_after_close.
 
 (* Ack ids: the acks handed to the transport are numbered 1, 2, 3, ... (State().LastIssuedChunkAckID
    is their number); a failed send consumes its id, so the ids of the acks the broker receives
    increase strictly from at least 1, never repeat, and are exactly 1..n when no send failed. *)
-Theorem c04_ack_ids : forall v cap pre evs,
+Theorem c04_ack_ids : forall v fl cap pre evs,
   small_history pre evs ->
-  let r := drun (dinit v cap pre) evs in
+  let r := drun (dinit v fl cap pre) evs in
   seq_from 1 (map ack_id (acks_of (snd r))) = true /\
   map ack_id (acks_of (snd r)) = nseq 1 (length (acks_of (snd r))) /\
   NoDup (map ack_id (acks_of (snd r))) /\
@@ -60,33 +60,33 @@ Theorem c04_ack_ids : forall v cap pre evs,
 Proof. exact ack_ids_seq. Qed.
 Print Assumptions c04_ack_ids.
 
-Theorem c04_ack_ids_received : forall v cap pre evs,
+Theorem c04_ack_ids_received : forall v fl cap pre evs,
   small_history pre evs ->
-  strictly_inc 0 (map ack_id (sent_acks_of (snd (drun (dinit v cap pre) evs)))) = true /\
+  strictly_inc 0 (map ack_id (sent_acks_of (snd (drun (dinit v fl cap pre) evs)))) = true /\
   (all_sent evs = true ->
-   sent_acks_of (snd (drun (dinit v cap pre) evs)) = acks_of (snd (drun (dinit v cap pre) evs))).
+   sent_acks_of (snd (drun (dinit v fl cap pre) evs)) = acks_of (snd (drun (dinit v fl cap pre) evs))).
 Proof.
-  intros v cap pre evs H. exact (conj (sent_ids_increase v cap pre evs H) (sent_all evs (dinit v cap pre))).
+  intros v fl cap pre evs H. exact (conj (sent_ids_increase v fl cap pre evs H) (sent_all evs (dinit v fl cap pre))).
 Qed.
 Print Assumptions c04_ack_ids_received.
 
 (* No alias is ever given to two things: the upstream aliases the client issues are pairwise
    distinct, and so are the data-id aliases, pre-registered ones included. *)
-Theorem c04_alias_injective : forall v cap pre evs,
+Theorem c04_alias_injective : forall v fl cap pre evs,
   small_history pre evs ->
-  let outs := snd (drun (dinit v cap pre) evs) in
+  let outs := snd (drun (dinit v fl cap pre) evs) in
   NoDup (keys (minted_ups outs)) /\ NoDup (keys (prereg_table 0 pre ++ minted_ids outs)).
 Proof. exact alias_injective. Qed.
 Print Assumptions c04_alias_injective.
 
 (* No upstream receives two aliases and (given distinct pre-registered ids) no data id does. *)
-Theorem c04_alias_functional : forall cap pre evs,
+Theorem c04_alias_functional : forall fl cap pre evs,
   small_history pre evs ->
-  let outs := snd (drun (dinit current cap pre) evs) in
+  let outs := snd (drun (dinit current fl cap pre) evs) in
   NoDup (vals (minted_ups outs)) /\ (NoDup pre -> NoDup (vals (prereg_table 0 pre ++ minted_ids outs))).
 Proof.
-  intros cap pre evs H.
-  exact (conj (proj1 (proj2 (func_init current cap pre evs H)) eq_refl) (proj1 (func_init current cap pre evs H))).
+  intros fl cap pre evs H.
+  exact (conj (proj1 (proj2 (func_init current fl cap pre evs H)) eq_refl) (proj1 (func_init current fl cap pre evs H))).
 Qed.
 Print Assumptions c04_alias_functional.
 
@@ -94,16 +94,16 @@ Print Assumptions c04_alias_functional.
    every data id - has an alias among those issued (which by c04_ack_exactly_once are exactly the
    ones announced or still buffered, and by c04_alias_injective / c04_alias_functional are in
    one-to-one correspondence with the things they name). *)
-Theorem c04_announce_once : forall cap pre evs,
+Theorem c04_announce_once : forall fl cap pre evs,
   small_history pre evs ->
-  let r := drun (dinit current cap pre) evs in
+  let r := drun (dinit current fl cap pre) evs in
   forall c, In c (consumed_of (snd r)) ->
     (forall id, In id (full_ids (ck_groups c)) -> In id (vals (prereg_table 0 pre ++ minted_ids (snd r)))) /\
     (forall i, ck_up c = UFull i -> In i (vals (minted_ups (snd r)))).
 Proof.
-  intros cap pre evs H r c Hc.
-  exact (conj (proj1 (proj2 (proj2 (func_init current cap pre evs H)) c Hc))
-              (proj2 (proj2 (proj2 (func_init current cap pre evs H)) c Hc) eq_refl)).
+  intros fl cap pre evs H r c Hc.
+  exact (conj (proj1 (proj2 (proj2 (func_init current fl cap pre evs H)) c Hc))
+              (proj2 (proj2 (proj2 (func_init current fl cap pre evs H)) c Hc) eq_refl)).
 Qed.
 Print Assumptions c04_announce_once.
 
@@ -111,9 +111,9 @@ Print Assumptions c04_announce_once.
    (the final flush included, which is sent) carry every result of every chunk returned so far and
    every alias issued so far; exactly one close request is emitted; no ack and no further close
    request follows it, whatever happens afterwards. *)
-Theorem c04_close_order : forall cap pre evs post,
+Theorem c04_close_order : forall fl cap pre evs post,
   small_history pre (evs ++ Close :: post) -> has_close evs = false ->
-  let s0 := dinit current cap pre in
+  let s0 := dinit current fl cap pre in
   let o1 := snd (drun s0 evs) in
   exists mid tail,
     snd (drun s0 (evs ++ Close :: post)) = o1 ++ mid ++ [OCloseReq] ++ tail /\
@@ -132,8 +132,8 @@ Print Assumptions c04_close_order.
    own message, was announced under aliases 1 and 2; the code as it is announces it once. *)
 Theorem c04_alias_functional_former_refuted :
   exists evs, small_history [] evs /\
-    ack_ups (sent_acks_of (snd (drun (dinit former_f4 inbox_cap []) evs))) = [(1, 7); (2, 7)] /\
-    ack_ups (sent_acks_of (snd (drun (dinit current inbox_cap []) evs))) = [(1, 7)].
+    ack_ups (sent_acks_of (snd (drun (dinit former_f4 [] inbox_cap []) evs))) = [(1, 7); (2, 7)] /\
+    ack_ups (sent_acks_of (snd (drun (dinit current [] inbox_cap []) evs))) = [(1, 7)].
 Proof. exists f4_witness. split; [vm_compute; split; reflexivity|]. exact (conj f4_two_aliases f4_repaired). Qed.
 Print Assumptions c04_alias_functional_former_refuted.
 
@@ -141,17 +141,17 @@ Print Assumptions c04_alias_functional_former_refuted.
    the next successful flush under the next ack id (2). *)
 Theorem c04_ack_lost_when_send_fails_former_refuted :
   exists evs,
-    (let r := drun (dinit former_f14 inbox_cap []) evs in
+    (let r := drun (dinit former_f14 [] inbox_cap []) evs in
      read_results (snd r) = [(7, 1)] /\ ack_results (sent_acks_of (snd r)) = [] /\ b_res (d_bufs (fst r)) = []) /\
-    (let r := drun (dinit current inbox_cap []) evs in
+    (let r := drun (dinit current [] inbox_cap []) evs in
      read_results (snd r) = [(7, 1)] /\ sent_acks_of (snd r) = [(2, [(1, 7)], [], [(7, 1)])] /\ b_res (d_bufs (fst r)) = []).
 Proof. exists f14_witness. exact (conj f14_result_lost f14_repaired). Qed.
 Print Assumptions c04_ack_lost_when_send_fails_former_refuted.
 
 (* the former code still acknowledged exactly once as long as no send failed *)
-Theorem c04_ack_exactly_once_former : forall v cap pre evs,
+Theorem c04_ack_exactly_once_former : forall v fl cap pre evs,
   small_history pre evs -> all_sent evs = true ->
-  let r := drun (dinit v cap pre) evs in
+  let r := drun (dinit v fl cap pre) evs in
   ack_results (sent_acks_of (snd r)) ++ b_res (d_bufs (fst r)) = read_results (snd r).
 Proof. exact ack_exactly_once_former. Qed.
 Print Assumptions c04_ack_exactly_once_former.
@@ -161,9 +161,9 @@ Print Assumptions c04_ack_exactly_once_former.
 Theorem c04_read_after_close_former_refuted :
   exists evs,
     (forall later,
-      let r := drun (dinit former_f32 inbox_cap []) (evs ++ later) in
+      let r := drun (dinit former_f32 [] inbox_cap []) (evs ++ later) in
       exists tail, read_results (snd r) = [(7, 1); (7, 2)] ++ tail /\ ack_results (acks_of (snd r)) = [(7, 1)]) /\
-    reads_of (snd (drun (dinit current inbox_cap []) evs)) =
+    reads_of (snd (drun (dinit current [] inbox_cap []) evs)) =
       [(Some (1, 7, []), 0, [(1, 7)], []); (None, 4, [], [])].
 Proof. exists rac_witness. exact (conj read_after_close_unacked rac_repaired). Qed.
 Print Assumptions c04_read_after_close_former_refuted.
@@ -176,7 +176,7 @@ Example c04_example :
               Arrive (mkChunk 2 (UFull 8) 1 [(DAlias 1, [(2,22,1)])]);
               Read false; AckTick true; AckTick true; Read false; AckTick false;
               Arrive (mkChunk 3 (UFull 7) 2 [(DFull 9, [])]); Read false; Close; AckTick true] in
-  let r := drun (dinit current inbox_cap [4]) evs in
+  let r := drun (dinit current [0; 1; 0] inbox_cap [4]) evs in
   small_history [4] evs /\
   sent_acks_of (snd r) =
     [(1, [(1,7)], [(2,5); (3,6)], [(7,1)]);
